@@ -63,7 +63,7 @@ CLAIMS["C04"] = {
             "forever (C04_client_finished_never_blocks, C04_client_end_is_permanent) and new RPCs fail at once (C04_client_new_rpc_fails); when serve returns every stream "
             "context has ended and no handler call stays blocked, then and ever after (C04_server_nothing_blocked, C04_server_returned_never_blocks); ended endpoints ignore "
             "late frames (C04_ended_ignores_frames). Tied to the code by " + _W1 + " " + _CLI + " " + _SRV + " and the lifecycle world (real grpc-go on bufconn: Close on either "
-            "end, context cancel/expiry, Stop, carrier loss at every frame boundary, forward and reverse). Open finding D10 (revision zero: Stop hangs behind a non-reading handler) is KNOWN-FINDING.",
+            "end, context cancel/expiry, Stop, carrier loss at every frame boundary, forward and reverse). Open finding D10 (revision zero: Stop hangs behind a non-reading handler) is KNOWN-FINDING. The closeerr world also reads Err() at the instant Done() is closed; D13 (transient non-nil Err() while a clean Close() is delayed between tear-down and bookkeeping) is an open finding.",
     "design_ref": "DESIGN.md A2 (C04), A4 (D10, D11)",
     "note": "Trusted: as C08; Go scheduling (released goroutines run). Done()/Err() values are checked by the worlds' monitors, not by a theorem.",
     "technique": "Lean 4 invariants over all reachable endpoint states + termination-at-every-frame-boundary correspondence",
@@ -149,7 +149,7 @@ CLAIMS["C11"] = {
     "text": "Theorem C11_select_eq_spec / C11_iff: for every pair of revision lists the client's selection loop picks exactly the highest revision both support, and fails iff "
             "there is none; settings/no-settings and legacy peers as the endpoint code does it (Negotiate.lean); regenerated facts tie supportedRevisions, the settings stream id "
             "and the negotiate header to the source. " + _CLI + " incl. malformed / empty / duplicate revision lists, and both option values on both ends. The header wiring on the public API is "
-            "covered by the negotiate world: the library as forward caller, reverse server, forward handler and reverse handler against hand-written current and legacy peers over real grpc-go.",
+            "covered by the negotiate world: the library as forward caller, reverse server, forward handler and reverse handler against hand-written current and legacy peers over real grpc-go. The serving roles of the negotiate world report the revision list inside their settings frame; regenerated wiring fact: the revision-zero constructor builds the window-less sender (Proofs.Facts.context_wiring).",
     "design_ref": "DESIGN.md A2 (C11), A4 (D6)",
     "note": "Trusted: Lean kernel; extractor facts; harness. grpc-go metadata transport of the negotiate header is exercised in the W2 worlds, not modelled.",
     "technique": "Lean 4 theorem (selection = spec, all lists) + differential correspondence",
@@ -177,7 +177,7 @@ CLAIMS["C13"] = {
             "_server_partial, C13_chunk_is_16KiB); headers at most once and before data (C13_headers_once, C13_headers_before_data); half-close and cancel at most once, no data "
             "after half-close (C13_halfClose_once, C13_cancel_once, C13_no_data_after_halfClose); exactly one close per accepted or rejected stream, last frame of a stream the "
             "handler ended (C13_one_close, C13_rejected_one_close, C13_accepted_no_close_yet, C13_close_is_last, C13_reply_close_is_last); no window updates in revision zero. "
-            "The real frames are compared with the models' frames in full (view = all frames) in " + _W1 + " " + _SRV + " " + _CLI + " and checked against the same grammar by wire monitors.",
+            "The real frames are compared with the models' frames in full (view = all frames) in " + _W1 + " " + _SRV + " " + _CLI + " and checked against the same grammar by wire monitors. Regenerated fact: only the cancelStream call whose finishStream ended the stream sends the cancel frame (Proofs.Facts.context_wiring).",
     "design_ref": "DESIGN.md A2 (C13)",
     "note": "Trusted: as C08; hypotheses where stated are the gRPC handler/caller contract (one send at a time, no SendMsg after CloseSend, unary reply last). Protobuf field encoding is protobuf-go's.",
     "technique": "Lean 4 trace theorems over endpoint models (all event sequences) + full-frame correspondence and wire-grammar monitors",
